@@ -86,7 +86,11 @@ def c08(A):
                         sub = "connack" if (e["step"] == c.step_connack_ok) else e["cause"]
                         o.bad("repeat-without-expiry/%s/%s" % (kind, sub), "%s repeated in a step that is not a timer expiry (%s)" % (kind, sub), e)
             # gaps on this connection
-            t0 = lst[0]["timeout"]
+            # "configured when it was first sent"; a message held back across a
+            # reconnect was configured on another protocol object: either reading is accepted
+            t0 = first["timeout"]
+            if r is not None:
+                t0 = min(t0, A.calls[r.i_call]["timeout"])
             gaps = []
             for x, y in zip(lst, lst[1:]):
                 g = y["t"] - x["t"]
@@ -189,6 +193,11 @@ def c13(A):
     tx_conn = {}
     for r in reqs:
         tx_conn[r.did] = [(e["i"], e["conn"]) for e in r.tx]
+    for key, txs in streams.items():
+        if key[0] == "PUBREL":
+            r = _req_of(A, key)
+            if r is not None and r.did in tx_conn:
+                tx_conn[r.did].extend((e["i"], e["conn"]) for e in txs)
     for step_no in sorted(A.snaps):
         sn = A.snaps[step_no]
         i_s = sn["i"]
